@@ -466,11 +466,13 @@ def big_string(rng, n, binary=False):
 
 
 def vlen_for_record(k, e):
-    """value length such that the colfer record enc(k, v) is exactly e bytes long (None: impossible)"""
-    for n in range(max(1, e - len(k) - 16), e):
-        if len(enc(k, b"")) + 1 + len(varint(n)) + n == e:
-            return n
-    return None
+    """value length such that the colfer record enc(k, v) is exactly e bytes long (the next longer record when the
+    length prefix makes e itself impossible)"""
+    while True:
+        for n in range(max(1, e - len(k) - 16), e):
+            if len(enc(k, b"")) + 1 + len(varint(n)) + n == e:
+                return n
+        e += 1
 
 
 def big_targets(quick):
@@ -905,9 +907,6 @@ def run_model(ck, items, prefix):
     shards = [s for s in shards if s]
     jobs = [("%s%d" % (prefix, si), hdr + ";\n".join(t for (t, _) in shd) +
              "\n].\nDefinition M := Eval vm_compute in false_ix cases.\nPrint M.\n") for si, shd in enumerate(shards)]
-    if os.environ.get("VERIF_C15_KEEP"):
-        for (nm, txt) in jobs:
-            open(os.path.join(os.environ["VERIF_C15_KEEP"], nm + ".v"), "w").write(txt)
     outs = ck.coq_eval_par(jobs, timeout=3000)
     mism = []
     for si, (rc, out) in enumerate(outs):
@@ -1098,16 +1097,6 @@ def run(ck):
                        for _ in range(rng.randrange(1, 7))))
     uitems = [("ucase %s %s %s" % (cbytes(s), cbytes(coerce(s)), cbool(valid(s))), s) for s in sorted(ustr)]
     t_ph = time.time()
-    if os.environ.get("VERIF_C15_PROFILE"):
-        grp = {}
-        for it in items:
-            grp.setdefault(it[1][0].kind + ":" + ":".join(it[1][0].origin.split(":")[:2]), []).append(it)
-        prof = {}
-        for g, its in sorted(grp.items()):
-            t1 = time.time()
-            run_model(ck, its, "c15p")
-            prof[g] = (len(its), round(time.time() - t1, 1), sum(len(t) for t, _ in its))
-        ck.cov["profile"] = prof
     mism = run_model(ck, items, "c15s")
     if mism is None:
         return
